@@ -72,3 +72,20 @@ Qed.
 (* consuming everything from the front gives the list, from the back its reverse *)
 Lemma take_ends_all_front {A} (M : list A) : take_ends M (repeat true (length M)) = (map Some M, []).
 Proof. induction M as [|a M IH]; cbn [length repeat take_ends map]; [reflexivity|]. now rewrite IH. Qed.
+
+(* take_ends commutes with maps: iterating over nodes and reading their entries is iterating over the entries *)
+Lemma removelast_map {A B} (f : A -> B) l : removelast (map f l) = map f (removelast l).
+Proof. induction l as [|a l IH]; [reflexivity|]. destruct l as [|b l]; [reflexivity|]. cbn [map removelast] in *. now rewrite IH. Qed.
+Lemma last_map {A B} (f : A -> B) l d : last (map f l) (f d) = f (last l d).
+Proof. induction l as [|a l IH]; [reflexivity|]. destruct l as [|b l]; [reflexivity|]. cbn [map last] in *. exact IH. Qed.
+Lemma take_ends_map {A B} (f : A -> B) (pat : list bool) : forall M,
+  take_ends (map f M) pat = (map (option_map f) (fst (take_ends M pat)), map f (snd (take_ends M pat))).
+Proof.
+  induction pat as [|b p IH]; intros M; cbn [take_ends]; [reflexivity|].
+  destruct M as [|a M'].
+  - cbn [map]. destruct b; specialize (IH []); cbn [map] in IH; rewrite IH; destruct (take_ends (@nil A) p); reflexivity.
+  - destruct b; cbn [map].
+    + rewrite IH. destruct (take_ends M' p). reflexivity.
+    + change (f a :: map f M') with (map f (a :: M')). rewrite removelast_map, IH, last_map.
+      destruct (take_ends (removelast (a :: M')) p). reflexivity.
+Qed.
